@@ -1,6 +1,6 @@
 (* C10 correspondence: (a) per spec class, the premises of C10_holds_if evaluated on the real client's view, retained
    keys and wire hello (CInst: spec_ok must hold - a failing instance names a spec outside the theorem);
-   (b) per handshake, the observed client decision against client_run10 on the flight the server sent, which must be
+   (b) per handshake, view = wire image and the observed client decision against client_run10 on the flight the server sent, which must be
    compliant (CRun); for the two excluded classes the flight is compliant, c10_cond is false and the model predicts
    the abort that is observed (CRunX). *)
 From UV Require Export Base.Common Model.Negotiate Model.KeyShare Model.Complete Corr.NegotiateObs.
@@ -8,15 +8,18 @@ From UV Require Export Base.Common Model.Negotiate Model.KeyShare Model.Complete
 Inductive case :=
 | CInst (fixed : bool) (v : client_view) (ks : kshape) (specmin : N) (w : wire_view)
 | CRun (fixed : bool) (v : client_view) (ks : kshape) (specmin : N) (w : wire_view) (fl : flight) (o : observed)
-| CRunX (fixed : bool) (v : client_view) (ks : kshape) (specmin : N) (w : wire_view) (fl : flight) (o : observed).
+| CRunX (fixed : bool) (v : client_view) (ks : kshape) (specmin : N) (w : wire_view) (fl : flight) (o : observed)
+(* one application-data Write on a completed connection: negotiated version, CBC suite?, len(b), reported n, err == nil *)
+| CWrite (vers : N) (cbc : bool) (len n : N) (ok : bool).
 
 Definition check (c : case) : bool :=
   match c with
   | CInst fixed v ks m w => spec_ok fixed env_fixed v ks m w
   | CRun fixed v ks m w fl o =>
-      compliant env_fixed m w fl && matches (client_run10 fixed env_fixed v ks fl) o
+      synced v w && compliant env_fixed m w fl && matches (client_run10 fixed env_fixed v ks fl) o
       && implb (c10_cond fixed env_fixed v ks m w fl) (o_complete o)
   | CRunX fixed v ks m w fl o =>
       compliant env_fixed m w fl && matches (client_run10 fixed env_fixed v ks fl) o
       && negb (c10_cond fixed env_fixed v ks m w fl) && negb (o_complete o)
+  | CWrite vers cbc len n ok => ok && (n =? uconn_write vers cbc len)
   end.
